@@ -360,6 +360,9 @@ def bfs(trees, Ns, levels, state_cap, idents=(False, True)):
         for (t, st, h), (n, dis, vs, news) in zip(items, res):
             trans += n
             disabled += dis
+            if len(samples) < 4 and (depth == len(levels)) and news is not None:
+                samples.append({"tree": t, "history_reaching_the_state": [list(x) for x in h], "path_lengths": {k: len(v[0]) for k, v in st.items()},
+                                "ops_applied_to_this_state": n, "ops_disabled_by_precondition": dis})
             for target, op, problems in vs:
                 kind = "collection" if target in "CDE" else "leaf"
                 viols.append({"key": f"C10|{kind}|{opkey(op)}|{problems[0].split(' ')[0]}-{problems[0].split(' ')[1]}",
